@@ -400,6 +400,18 @@ def answer (line : String) : String :=
       | some bs => showDec (decode ty bs)
       | none => "bad-op"
     | _ => "bad-op"
+  | "decpos" :: rest =>
+    -- where the slice stands after the decode, successful or not
+    match parseTy rest with
+    | some (ty, [h]) =>
+      match parseHex h with
+      | some bs =>
+        match decode ty bs with
+        | (.ok _, r) => "ok " ++ toString r.length
+        | (.err, r) => "err " ++ toString r.length
+        | (.panic, _) => "panic"
+      | none => "bad-op"
+    | _ => "bad-op"
   | "decio" :: rest =>
     match parseTy rest with
     | some (ty, [h]) =>
@@ -577,6 +589,8 @@ def answer (line : String) : String :=
       | "array" => Ledger.summary (Ledger.arrayDecodeInto n elem true)
       | "boxarray" => Ledger.summary (Ledger.boxDecode true (Ledger.arrayDecodeInto n elem true))
       | "vec" => Ledger.summary (Ledger.vecDecode n elem)
+      | "transparent" => Ledger.summary (Ledger.transparentDecodeInto n elem)
+      | "boxtransparent" => Ledger.summary (Ledger.boxDecode true (Ledger.transparentDecodeInto n elem))
       | _ => "bad-op"
     | _, _ => "bad-op"
   | "mel" :: rest =>
